@@ -43,6 +43,7 @@ def generated(ctx):
     """Generated/C14.lean: the shape constants, `right=` flags, None defaults, comparison operators and the order of the raised
     exception classes, read from the current source (Props/C14.lean proves `..._for_current_source` lemmas about them)."""
     from harness import c14_r7_fixtures as r7
+    ctx.extra['raise_order_evidence_only'] = r7.raise_orders()
     return r7.generated_text(ctx)
 
 
@@ -1186,8 +1187,9 @@ MANIFEST = dict(
           '(rows of all files in file order; on-time = union of the runs of all files) and from_I3Dataset (guards in order), get_data_subset '
           'with both type guards and separate exp / mc masks (empty window: nothing kept, no error), and histories on one object through the '
           'full setter interleaved with the read-only views (rejected assignment of any class keeps the state; the object always holds a valid '
-          'list; a view at any point answers like a fresh object). Generated/C14.lean carries the shape constants, right= flags, None defaults, '
-          'comparison operators and the order of the raised exception classes of the current source (c14_structure_for_current_source, '
+          'list; a view at any point answers like a fresh object). Generated/C14.lean carries semantic facts only (shape constants, right= flags, None defaults, '
+          'comparison operators normalised over syntax; unrecognised source shapes fall back to recorded values with a note; the order of '
+          'raised exception classes is evidence only) of the current source (c14_structure_for_current_source, '
           'c14_construct_for_current_source, c14_history_r7_sorted_for_current_source). The harness also varies how the Livetime object was '
           'obtained (fresh / copy / deepcopy / pickle / setter on another object) and loads good-run lists from real .npy files through '
           'datasets with absolute and root-dir-relative file names.'),
